@@ -227,7 +227,7 @@ CHECKS = {
     text='Coq theorems (Reals) over the bodies of the 27 functions, translated from the Python source on every run into a small '
          'expression language whose meaning is Python arithmetic and the math module on real arguments: each function is the '
          'mathematical function on its domain and raises outside it, for ALL reals; sin^2+cos^2=1, TAN=SIN/COS, COT=1/TAN, EXP/LN, '
-         'LOG=LN/LN; six inverse pairs undo each other on the principal ranges; ATAN2 is the angle of the point in (-pi, pi], '
+         'LOG=LN/LN; eight inverse pairs (ASIN/SIN, ACOS/COS, ATAN/TAN, ASINH/SINH, ACOSH/COSH, ATANH/TANH in both directions, COT/ACOT) undo each other on the principal ranges; ATAN2 is the angle of the point in (-pi, pi], '
          '#DIV/0! exactly at the origin; PV satisfies the annuity equation (linear form at rate 0). Tied to the code by the '
          'translator and by grids + random reals against a 60-digit reference, identities, coercions, RAND ranges.',
     design='7/C16',
